@@ -81,7 +81,7 @@ def lib_cases(chk, ctx):
         reads = [r.choice([[1] if size <= 40000 else [7], [7], [512], [4096], [32768], [1, 7, 512, 4096, 32768],
                            [size + 1], [max(1, size // 3) + 1], [4096, 1]]) for _ in range(2)]
         out.append({"kind": "lib", "content": [kind, size, i], "cfg": cfg, "seg": seg, "segkind": segk, "reads": reads,
-                    "zh": ctx["zh"]})
+                    "zh": ctx["zh"], "zh_plain": ctx.get("zh_plain")})
     return out
 
 
@@ -145,7 +145,9 @@ def run_lib(case):
         stats["chunks_written"] = nchunks
         for k, sizes in enumerate(case["reads"]):
             pre = ["vc"] if k == 0 else []
-            rd = core.run_zh(case["zh"], cdir, gen.reader_script("out.zck", pre=pre, sizes=sizes), name="read%d" % k)
+            rd = core.run_zh(case["zh"], cdir, gen.reader_script("out.zck", pre=pre, sizes=sizes), name="read%d" % k, slow_retry=case.get("zh_plain"))
+            if getattr(rd, "asan_slow", False):
+                stats["reads_too_slow_under_asan_judged_on_plain_build"] = stats.get("reads_too_slow_under_asan_judged_on_plain_build", 0) + 1
             if rd.timed_out and not rd.cpu_exceeded:
                 return core.verdict(cid, "inconclusive", detail="wall-clock watchdog during read", case=case)
             rs = core.crash_signatures(rd)
@@ -385,7 +387,7 @@ def worker(case):
 
 class C01(core.Check):
     prop = "C01"
-    flavours = ["asan"]
+    flavours = ["asan", "plain"]   # plain: only to confirm CPU-bound overruns seen under ASan (core.run_zh slow_retry)
     rule = ("library: random product of content kind/size x writer options x segmentation x read-size sequences, one process per "
             "write and per read; CLI: zck option combinations x split-string placement x closed descriptors, then unzck. "
             "distinct = hash of the full case description; non-trivial = close/exit reported success and the file has >= 2 data "
@@ -395,7 +397,7 @@ class C01(core.Check):
 
     def prepare(self, fl):
         a = fl["asan"]
-        return {"zh": build.zh(a), "zck": a.tool("zck"), "unzck": a.tool("unzck")}
+        return {"zh": build.zh(a), "zck": a.tool("zck"), "unzck": a.tool("unzck"), "zh_plain": build.zh(fl["plain"])}
 
     def cases(self, ctx):
         return lib_cases(self, ctx) + cli_cases(self, ctx)
